@@ -20,7 +20,7 @@ from ..gen import c11_gen as GEN
 
 PID = "C11"
 COQ_HEADER = ("From Coq Require Import List NArith ZArith.\nImport ListNotations.\n"
-              "From SK Require Import lib.Tok lib.LGraph model.C11_Model.\nLocal Open Scope N_scope.\n")
+              "From SK Require Import lib.Tok lib.LGraph model.C11_Model model.C11_State.\nLocal Open Scope N_scope.\n")
 SHARD = 250
 IMPL_TIMEOUT = 2400
 COQ_TIMEOUT = 1500
@@ -40,7 +40,7 @@ EXPLANATION = ("Exhaustive sub-space (both tiers): every labelled graph up to is
                "anchor, the VF2 enumerations and the WL-1 colours after 0,1,2,10 rounds are compared with the model and with brute force.  "
                "Everything else is seeded random / "
                "corpus sampling.  Theorems (coq/props/C11.v, all closed under the global context): C11_vocabulary, C11_aut_count, C11_aut_group, "
-               "C11_vf2_contract, C11_vf2_contract_items, C11_orbits_exact, C11_orbits_partition, C11_components, C11_anchors, C11_wl_never_splits, C11_wfb_sound, "
+               "C11_vf2_contract, C11_vf2_contract_items, C11_orbits_exact, C11_orbits_partition, C11_components, C11_anchors, C11_object_state, C11_wl_never_splits, C11_wfb_sound, "
                "C11_dedup_sublist, C11_dedup_first_of_class, C11_partial_prune, C11_prune_complete, C11_rep_ok, C11_prune_complete_aut, C11_prune_same_results.")
 TRUSTED_BASE = [
     "Coq 8.16.1 kernel + vm_compute (no native_compute)",
@@ -293,6 +293,7 @@ def _reactor(case, mode):
             raw = list(ms)
             out = raw if mode == "raw" else orig(raw, *a, **k)
             rec["raw"], rec["out"] = raw, out
+            rec["calls"] = rec.get("calls", 0) + 1
             if a and isinstance(a[0], (list, tuple)):
                 rec["n_aut"] = len(a[0])
                 rec["auts"] = [dict(x) for x in a[0]]
@@ -304,10 +305,13 @@ def _reactor(case, mode):
         tpl = rsmi_to_its(case["tpl"], core=case["core"])
         r = SR.SynReactor(case["sub"], tpl, invert=case["invert"], **case.get("opts", {}))
         maps = r.mappings
+        n_calls = rec.get("calls", 0)
+        again = r.mappings                                      # (e) a second read gives the same matches in the same order
         raw = rec.get("raw", list(maps))
         res = dict(raw=[[[p, h] for p, h in m.items()] for m in raw], kept=_indices(raw, maps), n_aut=rec.get("n_aut", 0),
                    rc=GG.from_nx(r.rule.rc.raw))
         res["auts"] = rec.get("auts", [])
+        res["reread"] = (list(again) == list(maps))
         if mode != "front":
             its = r.its_list
             res["its"] = sorted(nx.weisfeiler_lehman_graph_hash(
@@ -331,7 +335,7 @@ def _flat(g):
 
 def _impl_prune(case):
     r = _reactor(case, "front")
-    return [[r["raw"], r["kept"], r["n_aut"]], True, True, not _prune_representatives(r)]
+    return [[r["raw"], r["kept"], r["n_aut"]], True, True, (not _prune_representatives(r)) and r["reread"]]
 
 
 # ------------------------------------------------------------------ history cases (one case = a script on SHARED objects)
@@ -444,12 +448,17 @@ def _impl_hist(case):
         from synkit.Graph.Matcher.auto_est import AutoEst
         G = GG.to_nx(case["g"])
         E_old = AutoEst(G).fit()
-        out = []
+        A_kept = Automorphism(G)          # ONE exact-analysis object for the whole history (model: C11_State.reads)
+        E_kept = AutoEst(G)               # ONE estimator, fitted again after every edit   (model: C11_State.refits)
+        out, reads, refits = [], [], []
         for st in case["steps"]:
             lazy = Automorphism(G) if st.get("edit") else None
             _edit_nx(G, st.get("edit", []))
             out.append([_aut_obs(G, st.get("nk")), _reuse_flags(G, E_old, lazy)])
-        return out
+            reads.append([A_kept.n_automorphisms, S([S(sorted(o)) for o in A_kept.orbits])])
+            col = E_kept.fit().node_colors
+            refits.append([[col[n] for n in G.nodes()]])
+        return [out, [reads, refits]]
     if case["script"] == "prune":
         return [_impl_prune(st) for st in case["steps"]]
     raise AssertionError(case["script"])
@@ -462,7 +471,7 @@ def _coq_hist(case):
             if not _in_domain(g):
                 return None
             terms.append("L [run_aut_wf %s; tlist tbool [%s]]" % (_coq_graph(g, st.get("nk")), "; ".join(["true"] * N_FLAGS)))
-        return "L [%s]" % "; ".join(terms)
+        return "L [L [%s]; run_objects [%s]]" % ("; ".join(terms), "; ".join(_coq_graph(g) for g in hist_graphs(case)))
     if case["script"] == "prune":
         terms = []
         for st in case["steps"]:
